@@ -6,4 +6,4 @@ CONSTANTS
   MaxLen = 3
   Classes = {"valid", "malformed"}
   Full = FALSE
-INVARIANTS TypeOK OrderIndependent OrderIndependentDistinct Commutes RoleFilter OwnRoleNeutral Defaults MalformedIgnored PortFromTables
+INVARIANTS TypeOK OrderIndependent Commutes RoleFilter OwnRoleNeutral Defaults MalformedIgnored PortFromTables
